@@ -349,6 +349,11 @@ def main(chk, replay=None):
     W = xw.World()
     for inst in ('A', 'B'):
         W.beads('none', inst)
+    if not chk.quick:
+        # unbounded companion (extra; the claim stays model checking): the two file-system invariants of RunEnv are
+        # INDUCTIVE - checked symbolically by Apalache for histories of any length; the C15-r3 transition must break it
+        from harness import apalache
+        chk.extra['apalache'] = apalache.inductive('RunEnvInd')
     cfgs = workbook_configs(chk)
     res3 = tlc.require_ok(tlc.run_tlc('RunEnv', 'SPECIFICATION Spec\nCONSTANT MaxOps = %d\nINVARIANT StrayUntouched\n'
                                       'INVARIANT FiguresUnderWorkbook\nPROPERTY RunCompletes\nPROPERTY NothingRemoved\n' % (3 if chk.quick else 4),
